@@ -54,6 +54,18 @@ class TagLib(LibraryMiddleware):
         return library
 
 
+class DropAll(LibraryMiddleware):
+    """library probe whose result is a new, empty library (a filter that keeps nothing): an empty library is a result
+    like any other - what follows in the stack works on it, and it is what the entry point returns / writes"""
+
+    def __init__(self, tag):
+        super().__init__(allow_inplace_modification=False)
+        self.tag = tag
+
+    def transform(self, library):
+        return Library()
+
+
 class AddBlock(LibraryMiddleware):
     """library probe that generates content: appends a comment carrying its tag (visible even on an empty library)"""
 
@@ -231,6 +243,8 @@ def mk_one(t):
         return AddBlock(t)
     if t[0] == "l":
         return TagLib(t)
+    if t[0] == "d":
+        return DropAll(t)
     # shipped middlewares (R / E also sit in the default parse stack, A in the default write stack)
     from bibtexparser import middlewares as SM
     if t == "R":
@@ -417,7 +431,7 @@ def sym_doc(eng, extra=""):
 
 def task_stack(which, stack_spec, extra_spec, how, doc="entry"):
     eng = Engine()
-    eng.own_class(TagFields, TagLib, Splice, AddBlock, SpliceAll, RenameStrings)
+    eng.own_class(TagFields, TagLib, Splice, AddBlock, SpliceAll, RenameStrings, DropAll)
     rec = Recorder(eng)
     if doc == "entry":
         text, syms = sym_doc(eng)
@@ -463,7 +477,7 @@ def task_stack(which, stack_spec, extra_spec, how, doc="entry"):
 
 def task_repeat():
     eng = Engine()
-    eng.own_class(TagFields, TagLib, Splice, AddBlock, SpliceAll, RenameStrings)
+    eng.own_class(TagFields, TagLib, Splice, AddBlock, SpliceAll, RenameStrings, DropAll)
     rec = Recorder(eng)
     text, syms = sym_doc(eng)
     E = eng.I.models.eq_simple
@@ -495,7 +509,7 @@ def task_repeat():
 
 def task_splice(kind):
     eng = Engine()
-    eng.own_class(TagFields, TagLib, Splice, AddBlock, SpliceAll, RenameStrings)
+    eng.own_class(TagFields, TagLib, Splice, AddBlock, SpliceAll, RenameStrings, DropAll)
     rec = Recorder(eng)
     text, syms = sym_doc(eng)
     worlds = eng.run(drv_splice, [text, kind])
@@ -535,7 +549,7 @@ def task_splice(kind):
 def task_spliceall():
     """transform_block-level probe for every block type, failed blocks included; target type and result kind symbolic"""
     eng = Engine()
-    eng.own_class(TagFields, TagLib, Splice, AddBlock, SpliceAll, RenameStrings)
+    eng.own_class(TagFields, TagLib, Splice, AddBlock, SpliceAll, RenameStrings, DropAll)
     rec = Recorder(eng)
     tail = eng.sym_str("t", 2, SIGMA_S)
     text = mk(tuple(ALL_DOC) + chars(tail))
@@ -581,7 +595,7 @@ def task_rename():
     """a block middleware that changes keys in place: the result is a library built from the returned blocks (its views
     and its duplicate detection see the NEW keys: 'ab' and 'Ab' both become 'AB')"""
     eng = Engine()
-    eng.own_class(TagFields, TagLib, Splice, AddBlock, SpliceAll, RenameStrings)
+    eng.own_class(TagFields, TagLib, Splice, AddBlock, SpliceAll, RenameStrings, DropAll)
     rec = Recorder(eng)
     text, syms = sym_doc(eng)
     worlds = eng.run(drv_rename, [text])
@@ -717,7 +731,7 @@ def native_filelog(enc, target_kind, sv=None):
 def task_filelog(enc, target_kind, sv=None):
     """concrete-mode run of the file wrappers against the open() stub: exact call log"""
     eng = Engine()
-    eng.own_class(TagFields, TagLib, Splice, AddBlock, SpliceAll, RenameStrings)
+    eng.own_class(TagFields, TagLib, Splice, AddBlock, SpliceAll, RenameStrings, DropAll)
     rec = Recorder(eng)
     content = "@a{k, t = {v}}\n"
     log = []
@@ -779,6 +793,11 @@ def main():
     for which in ("parse", "write"):
         for st, ex in ((None, ["c7"]), (["c1", "c2"], None), (["c1"], ["c2"]), ([], []), (None, None), (["c2", "c1"], None), (None, ["c1", "c2"])):
             chk.add_task(f"{which}-blank-{st}-{ex}".replace(" ", ""), task_stack, which=which, stack_spec=st, extra_spec=ex, how="list", doc="blank")
+    # a middleware whose result is the empty library, alone / first / last in the stack and in the extra position
+    chk.bounds["empty result"] = "a probe returning a new empty library: as the stack, first and last in it, appended / prepended, followed by a content-generating probe"
+    for which in ("parse", "write"):
+        for st, ex in ((None, ["d9"]), (["d1"], None), (["b1", "d2"], None), (["d1", "c2"], None), (None, ["d1", "c2"]), (["c1", "d2"], None), (["d1"], ["b2"])):
+            chk.add_task(f"{which}-drop-{st}-{ex}".replace(" ", ""), task_stack, which=which, stack_spec=st, extra_spec=ex, how="list")
     for kind in SPLICE:
         chk.add_task(f"splice-{kind}", task_splice, kind=kind)
     chk.add_task("splice-every-type", task_spliceall)
